@@ -315,7 +315,8 @@ func (c *cors) headerIsAllowed(r *http.Request) bool {
 		return true
 	}
 
-	h := strings.TrimSpace(r.Header.Get(header.AccessControlRequestHeaders))
+	// 报头可以出现多次，每一行都是一个以逗号分隔的列表，需要检测所有的值。
+	h := strings.TrimSpace(strings.Join(r.Header.Values(header.AccessControlRequestHeaders), ","))
 	if h == "" {
 		return true
 	}
